@@ -146,7 +146,22 @@ func (c *checker) tipNode(requireMax bool) *ref.Node {
 		return nil
 	}
 	if requireMax {
-		best := w.Tree.BestTips()
+		// a side chain that forks from the reported chain below the prune floor may have been dropped
+		// from memory, so only chains that are certainly retained are demanded (this matters when
+		// marking a header invalid makes the best chain fall back)
+		var best []*ref.Node
+		all := w.Tree.Sorted()
+		if w.Tree.SharedTip != nil {
+			all = append([]*ref.Node{w.Tree.SharedTip}, all...)
+		}
+		for _, n := range all {
+			if n.Excluded() || !retainedNode(w, t, n) {
+				continue
+			}
+			if len(best) == 0 || n.Work.Cmp(best[0].Work) > 0 {
+				best = []*ref.Node{n}
+			}
+		}
 		if len(best) > 0 && t.Work.Cmp(best[0].Work) < 0 {
 			c.fail("tip-not-max", opClass(c.st), fmt.Sprintf("reported tip %s (work %s) but accepted header %s has more work (%s)",
 				t.Label, t.Work.Text(16), best[0].Label, best[0].Work.Text(16)))
